@@ -1,3 +1,5 @@
 import TakVerif.Model.Core
 import TakVerif.Model.Move
 import TakVerif.Spec.Rules
+import TakVerif.Lemmas.Board
+import TakVerif.Props.C01
